@@ -25,7 +25,7 @@ from WallGo.polynomial import Polynomial
 
 from symx import core, npx
 from symx.core import AND, Cond, Sym, close, eq
-from symx.harness import HarnessDef
+from symx.harness import HarnessDef, bare
 
 EXPLANATION = __doc__
 BOUNDS = {"particles": "1..3 (3 only for N_file=5 -> N_grid=3)", "sizes": "N_file in {3,5,7}, N_grid in {3,5}",
@@ -105,7 +105,7 @@ def h_load(h, P, N, fault, where, stored="Chebyshev", requested="Chebyshev"):
     fake = FakeH5(files)
     h.patch_always(CA, h5py=fake)
     # go through BoltzmannSolver.loadCollisions so that the "previous array stays" part is real
-    bs = BZ.BoltzmannSolver.__new__(BZ.BoltzmannSolver)
+    bs = bare(BZ.BoltzmannSolver)
     bs.grid, bs.basisN, bs.offEqParticles = grid, requested, parts
     sentinel = object()
     bs.collisionArray = sentinel
@@ -200,13 +200,25 @@ def _lagrange(nodes, x):
     return out
 
 
-def h_interp(h, P, Nfile, Ngrid, basis):
+def h_interp(h, P, Nfile, Ngrid, basis, keep=None):
     _patch(h)
     parts = particles(P)
     src_grid = Grid(3, Nfile, 1.0, 1.0)
     tgt = Grid(3, Ngrid, 1.0, 1.0)
     n, nn = Nfile - 1, Ngrid - 1
-    C = h.reals("C", (P, n, n, P, n, n), -1, 1, strict=False)
+    if keep is None:
+        C = h.reals("C", (P, n, n, P, n, n), -1, 1, strict=False)
+    else:
+        # large stored grids: the tensor is arbitrary on the listed polynomial-index pairs (m, q) and
+        # zero elsewhere (the interpolation acts on the momentum axes (j, k), linearly and separately
+        # for every (m, q)); keeps the number of symbols at |keep| * P^2 * n^2
+        C = np.zeros((P, n, n, P, n, n), dtype=object if h.symbolic else float)
+        for (m, q) in keep:
+            for a in range(P):
+                for b in range(P):
+                    for j in range(n):
+                        for k in range(n):
+                            C[a, j, k, b, m, q] = h.real(f"C_{a}_{j}_{k}_{b}_{m}_{q}", -1, 1, strict=False)
     poly = Polynomial(C.copy(), src_grid, ("Array", "Cardinal", "Cardinal", "Array", basis, basis),
                       CollisionArray.AXIS_TYPES, endpoints=False)
     src = CollisionArray.newFromPolynomial(poly, parts)
@@ -268,7 +280,14 @@ _BQ = [dict(P=1, N=3, start="Chebyshev"), dict(P=2, N=3, start="Cardinal"), dict
 _BT = _BQ + [dict(P=2, N=5, start="Chebyshev"), dict(P=3, N=3, start="Chebyshev")]
 _IQ = [dict(P=1, Nfile=5, Ngrid=3, basis="Chebyshev"), dict(P=2, Nfile=5, Ngrid=3, basis="Chebyshev"),
        dict(P=1, Nfile=5, Ngrid=3, basis="Cardinal")]
-_IT = _IQ + [dict(P=3, Nfile=5, Ngrid=3, basis="Chebyshev"), dict(P=1, Nfile=7, Ngrid=5, basis="Chebyshev"),
+# stored sizes that are multiples of the target size (and not): node-nesting shortcuts live there
+_IQ += [dict(P=1, Nfile=15, Ngrid=5, basis="Chebyshev", keep=((0, 0), (1, 2))),
+        dict(P=1, Nfile=9, Ngrid=3, basis="Chebyshev", keep=((0, 1),))]
+_IT = _IQ + [dict(P=1, Nfile=21, Ngrid=7, basis="Chebyshev", keep=((2, 1),)),
+             dict(P=2, Nfile=15, Ngrid=5, basis="Chebyshev", keep=((1, 0),)),
+             dict(P=1, Nfile=25, Ngrid=5, basis="Chebyshev", keep=((0, 3),)),
+             dict(P=1, Nfile=15, Ngrid=7, basis="Chebyshev", keep=((3, 3),)),
+             dict(P=1, Nfile=15, Ngrid=5, basis="Cardinal", keep=((0, 0),))] + [dict(P=3, Nfile=5, Ngrid=3, basis="Chebyshev"), dict(P=1, Nfile=7, Ngrid=5, basis="Chebyshev"),
              dict(P=2, Nfile=7, Ngrid=3, basis="Cardinal")]  # (equal sizes are not "a smaller grid": interpolateCollisionArray asserts strict decrease)
 
 HARNESSES = [
